@@ -343,6 +343,7 @@ func runWatcher(ctx context.Context, env *watchEnv, rec *WatchRec, extraKind []s
 			rec.Cancelled = true
 			rec.Done = true
 			env.out.probe("watch-cancelled")
+			env.out.fault("cancel:watch-context")
 			return
 		}
 		if spec.DelayMs > 0 {
@@ -352,6 +353,7 @@ func runWatcher(ctx context.Context, env *watchEnv, rec *WatchRec, extraKind []s
 			simrt.Sleep(time.Duration(spec.StallMs) * time.Millisecond)
 			spec.StallMs = 0
 			env.out.probe("consumer-stalled")
+			env.out.fault("consumer:stall")
 		}
 	}
 }
